@@ -812,6 +812,43 @@ func coerceMap(m map[string]interface{}) map[string]interface{} {
 	return c
 }
 
+// driverValues converts the values of a filter (or of an extracted row) to the
+// driver values their columns serialize to.
+func (t *Table) driverValues(m map[string]interface{}) (map[string]interface{}, error) {
+	c := make(map[string]interface{}, len(m))
+	for name, v := range m {
+		column, ok := t.ColumnsByName[name]
+		if !ok {
+			return nil, fmt.Errorf("unknown column %s", name)
+		}
+		dv, err := column.Descriptor.Valuer(reflect.ValueOf(v)).Value()
+		if err != nil {
+			return nil, fmt.Errorf("sqlgen: filter error for `%s`.`%s`: %v", t.Name, column.Name, err)
+		}
+		c[name] = dv
+	}
+	return c, nil
+}
+
+// matchableTime stands in for a time.Time in matcher tuples, where values are
+// compared with ==: equal instants must be equal keys whatever their location.
+type matchableTime struct {
+	sec  int64
+	nsec int
+}
+
+// matchableValues prepares driver values for use in matcher tuples.
+func matchableValues(m map[string]interface{}) map[string]interface{} {
+	c := make(map[string]interface{}, len(m))
+	for k, v := range m {
+		if t, ok := v.(time.Time); ok {
+			v = matchableTime{sec: t.Unix(), nsec: t.Nanosecond()}
+		}
+		c[k] = v
+	}
+	return c
+}
+
 func (t *tester) Test(row interface{}) bool {
 	if row == nil {
 		return false
